@@ -42,7 +42,9 @@ inductive CRaise
   | unmodelled        -- input shape outside the model (never produced by the generators)
   deriving DecidableEq, Repr, Inhabited
 
-abbrev Sig := List Nat × Bool
+/-- one `element_set.send(sender, adapted=...)`: where the sender sits below the observed element,
+    the `adapted` flag, and the state of the sender that a listener sees at that moment -/
+abbrev Sig := List Nat × Bool × Elem
 
 structure SetOut where
   elem : Elem
@@ -66,6 +68,33 @@ def blankL : List Schema → List Elem
 end
 
 def prefixSigs (i : Nat) (sigs : List Sig) : List Sig := sigs.map fun s => (i :: s.1, s.2)
+
+/-- `Scalar.set(obj)` on an element in state `old`, assignment by assignment, with the state a
+    listener sees when `element_set.send` runs:
+    `self.raw = obj`; then `self.value = adapt(obj)`, `self.u = ...`, send — or, on
+    AdaptationError, `self.value = None`, `self.u = <text of obj>`, send. -/
+def scalarSetTrace (E : Env) (k : Kind) (old : SState) (obj : Native) :
+    Except Raise (SState × Bool × List (Bool × SState)) :=
+  let s1 := { old with raw := obj }                            -- `self.raw = obj`
+  match adapt E k obj with
+  | .error e => .error e
+  | .ok (some v) =>
+    let s2 := { s1 with value := v }                           -- `obj = self.value = self.adapt(obj)`
+    match uOfValue E k v with
+    | .error e => .error e
+    | .ok u =>
+      let s3 := { s2 with u := u }                             -- `self.u = self.serialize(obj)` / `''`
+      .ok (s3, true, [(true, s3)])                             -- `element_set.send(self, adapted=True)`
+  | .ok none =>
+    let s2 := { s1 with value := Native.none }                 -- `self.value = None`
+    match uOfFailed E.T obj with
+    | .error e => .error e
+    | .ok u =>
+      let s3 := { s2 with u := u }                             -- `self.u = obj` / `str(obj)` / `''`
+      .ok (s3, false, [(false, s3)])                           -- `element_set.send(self, adapted=False)`
+
+/-- the signals of a scalar child, as entries of its parent's log -/
+def scalarSigs (l : List (Bool × SState)) : List Sig := l.map fun p => ([], p.1, Elem.scalar p.2)
 
 /-- `for v in iterable`: none = TypeError (not iterable) -/
 def iterItems : Input → Option (List Input)
@@ -131,17 +160,19 @@ def nthElem (l : List Elem) (i : Nat) (d : Elem) : Elem := (l[i]?).getD d
 mutual
 /-- `element.set(value)` -/
 def setElem (E : Env) : Schema → Elem → Input → Except CRaise SetOut
-  | .scalar k, _, inp =>
+  | .scalar k, old, inp =>
     match inp with
     | .leaf x =>
-      match setScalar E k x with
+      let st := match old with | .scalar st => st | _ => blankState
+      match scalarSetTrace E k st x with
       | .error r => .error (.scalar r)
-      | .ok r => .ok ⟨.scalar r.st, r.flag, r.signals.map fun b => ([], b)⟩
+      | .ok (st', flag, sigs) => .ok ⟨.scalar st', flag, scalarSigs sigs⟩
     | _ => .error .unmodelled
   | .seq m, _, inp =>
     -- `del self[:]`, then one fresh member per item
+    let cleared := Elem.seq []
     match iterItems inp with
-    | none => .ok ⟨.seq [], false, [([], false)]⟩               -- `except TypeError`
+    | none => .ok ⟨cleared, false, [([], false, cleared)]⟩      -- `except TypeError: element_set.send(self, adapted=False)`
     | some items =>
       let outs := (indexed items).map fun (i, x) => (i, setElem E m (blank m) x)
       match outs.findSome? (fun (_, o) => match o with | .error e => some e | .ok _ => none) with
@@ -149,11 +180,11 @@ def setElem (E : Env) : Schema → Elem → Input → Except CRaise SetOut
       | none =>
         let oks := outs.filterMap fun (i, o) => match o with | .ok out => some (i, out) | .error _ => none
         let flag := oks.all fun (_, out) => out.flag           -- `converted &= el.set(v)`
-        .ok ⟨.seq (oks.map (·.2.elem)), flag,
-             (oks.flatMap fun (i, out) => prefixSigs i out.sigs) ++ [([], flag)]⟩
+        let attached := Elem.seq (oks.map (·.2.elem))          -- `self.extend(values)`, then the signal
+        .ok ⟨attached, flag, (oks.flatMap fun (i, out) => prefixSigs i out.sigs) ++ [([], flag, attached)]⟩
   | .dict pol names fields, old, inp =>
     match toPairs inp with
-    | none => .ok ⟨old, false, [([], false)]⟩                   -- `except (TypeError, ValueError)`, before `_reset()`
+    | none => .ok ⟨old, false, [([], false, old)]⟩              -- `except (TypeError, ValueError)`, before `_reset()`: members as they were
     | some pairs =>
       -- subset policy: keys outside the schema raise KeyError (after `_reset()`, no signal)
       if pol == .subset && !(pairs.all fun p => match p.1 with | .str s => names.contains s | _ => false) then
@@ -165,7 +196,8 @@ def setElem (E : Env) : Schema → Elem → Input → Except CRaise SetOut
         | none =>
           let calls := mergeCalls runs pairs.length
           let flag := calls.all (·.1)
-          .ok ⟨.dict (runs.map (·.2.elem)), flag, (calls.flatMap (·.2)) ++ [([], flag)]⟩
+          let filled := Elem.dict (runs.map (·.2.elem))         -- after the member loop, then the signal
+          .ok ⟨filled, flag, (calls.flatMap (·.2)) ++ [([], flag, filled)]⟩
   | .date yk mk dk, old, inp =>
     match inp with
     | .leaf x =>
@@ -174,17 +206,23 @@ def setElem (E : Env) : Schema → Elem → Input → Except CRaise SetOut
       | .error r => .error (.scalar r)
       | .ok (some .none) =>
         -- `getattr(None, 'year')` raises AttributeError: caught by Compound.set, members untouched
-        .ok ⟨old, false, [([], false)]⟩
+        .ok ⟨old, false, [([], false, old)]⟩
       | .ok ov =>
         let parts : Native × Native × Native := match ov with
           | some (.date y m d) => (.int y, .int m, .int d)
           | some (.datetime y m d _ _ _ _) => (.int y, .int m, .int d)
           | _ => (.none, .none, .none)                          -- AdaptationError: set(None) each
-        match setScalar E yk parts.1, setScalar E mk parts.2.1, setScalar E dk parts.2.2 with
+        -- the three members exist already; each is `set()` in turn, then the compound signals
+        let olds : SState × SState × SState := match old with
+          | .date y m d => (y, m, d)
+          | _ => (blankState, blankState, blankState)
+        match scalarSetTrace E yk olds.1 parts.1, scalarSetTrace E mk olds.2.1 parts.2.1,
+              scalarSetTrace E dk olds.2.2 parts.2.2 with
         | .ok a, .ok b, .ok c =>
-          .ok ⟨.date a.st b.st c.st, true,
-               prefixSigs 0 (a.signals.map fun b => ([], b)) ++ prefixSigs 1 (b.signals.map fun b => ([], b)) ++
-               prefixSigs 2 (c.signals.map fun b => ([], b)) ++ [([], true)]⟩
+          let after := Elem.date a.1 b.1 c.1
+          .ok ⟨after, true,
+               prefixSigs 0 (scalarSigs a.2.2) ++ prefixSigs 1 (scalarSigs b.2.2) ++
+               prefixSigs 2 (scalarSigs c.2.2) ++ [([], true, after)]⟩
         | .error r, _, _ => .error (.scalar r)
         | _, .error r, _ => .error (.scalar r)
         | _, _, .error r => .error (.scalar r)
@@ -201,17 +239,21 @@ def setElem (E : Env) : Schema → Elem → Input → Except CRaise SetOut
       | .leaf _ => .ok none                                                 -- `except TypeError`
     match items with
     | .error e => .error e
-    | .ok none => .ok ⟨.joined [], false, [([], false)]⟩                   -- `del self[:]`, adapted=False
+    | .ok none =>
+      let cleared := Elem.joined []                                          -- `del self[:]` first,
+      .ok ⟨cleared, false, [([], false, cleared)]⟩                           -- then `element_set.send(self, adapted=False)`
     | .ok (some vals) =>
       let kept := vals.filter fun v => !(prune && !pyTruthy v)        -- `if prune and not value: continue`
-      let outs := kept.map fun v => setScalar E k v
+      -- `del self[:]`; every kept value is set() in a fresh member, which is then appended
+      let outs := kept.map fun v => scalarSetTrace E k blankState v
       match outs.findSome? (fun o => match o with | .error e => some e | .ok _ => none) with
       | some e => .error (.scalar e)
       | none =>
         let oks := outs.filterMap fun o => match o with | .ok r => some r | .error _ => none
-        let flag := oks.all (·.flag)                                  -- `all(success)`
-        .ok ⟨.joined (oks.map (·.st)), flag,
-             ((indexed oks).flatMap fun (i, r) => prefixSigs i (r.signals.map fun b => ([], b))) ++ [([], flag)]⟩
+        let flag := oks.all (·.2.1)                                   -- `all(success)`
+        let after := Elem.joined (oks.map (·.1))
+        .ok ⟨after, flag,
+             ((indexed oks).flatMap fun (i, r) => prefixSigs i (scalarSigs r.2.2)) ++ [([], flag, after)]⟩
 /-- the `for key, value in pairs` loop of `Dict.set`, one field at a time -/
 def setFields (E : Env) : List Str → List Schema → List (Native × Input) → Nat → List (Nat × ChildRun)
   | n :: ns, f :: fs, pairs, i =>
